@@ -162,18 +162,23 @@ fn block_kind(nl_before: bool, body: &[u8]) -> CK {
 
 fn cond_kind(name: &[u8]) -> Option<ConditionalDirectiveKind> {
     use ConditionalDirectiveKind as C;
-    let t: [(&[u8], C); 8] = [(b"if", C::If), (b"ifdef", C::Ifdef), (b"ifndef", C::Ifndef), (b"ifopt", C::Ifopt), (b"elseif", C::Elseif), (b"else", C::Else), (b"ifend", C::Ifend), (b"endif", C::Endif)];
-    let mut i = 0;
-    while i < 8 {
-        if eq_icase(name, t[i].0) {
-            return Some(t[i].1);
-        }
-        i += 1;
-    }
+    // loop-free on purpose (a table loop would dictate the unwind bound of the whole harness)
+    if eq_icase(name, b"if") { return Some(C::If); }
+    if eq_icase(name, b"ifdef") { return Some(C::Ifdef); }
+    if eq_icase(name, b"ifndef") { return Some(C::Ifndef); }
+    if eq_icase(name, b"ifopt") { return Some(C::Ifopt); }
+    if eq_icase(name, b"elseif") { return Some(C::Elseif); }
+    if eq_icase(name, b"else") { return Some(C::Else); }
+    if eq_icase(name, b"ifend") { return Some(C::Ifend); }
+    if eq_icase(name, b"endif") { return Some(C::Endif); }
     None
 }
 
 pub struct Ctx<'a> {
+    /// kind of a word: either a linear scan of the keyword table (independent, but 122 loop
+    /// iterations that force a large unwind bound on the whole harness) or, in the step harnesses,
+    /// the implementation's own lookup, which is checked against the table separately (K1, K2)
+    pub word_kind: Option<fn(&str) -> TT>,
     pub keywords: &'a [(&'static str, TT)],
     pub asm: bool,
     pub is_first: bool,
@@ -191,6 +196,9 @@ pub fn ref_token(s: &[u8], ws: usize, c: &Ctx) -> Option<(usize, TT)> {
             return TT::Identifier;
         }
         let w = &s[ws..end];
+        if let Some(f) = c.word_kind {
+            return f(unsafe { std::str::from_utf8_unchecked(w) });
+        }
         let mut i = 0;
         while i < c.keywords.len() {
             if eq_icase(w, c.keywords[i].0.as_bytes()) {
